@@ -78,7 +78,7 @@ func randSchema(r *Rng, depth int, o SchemaGenOpts) *GSchema {
 			}
 		}
 		if o.Formats && r.Chance(25) {
-			g.Format = Pick(r, []string{"date", "date-time", "byte", "email", "uuid", "x-wrapped"})
+			g.Format = Pick(r, []string{"date", "date-time", "byte", "email", "uuid", "x-wrapped", "x-noreason"})
 		}
 	case 4: // array
 		setType("array")
@@ -369,6 +369,7 @@ var formatShaped = map[string][]string{
 	"date-time": {"2020-01-02T03:04:05Z", "2023-02-30T23:59:60Z", "1999-11-31T00:00:00+01:00", "2021-12-31T23:59:59.999Z"},
 	"byte":      {"Zm9v", "Zm9vYg==", "Zm9vYmE=", "=Zm9", "Zm9v===="},
 	"email":     {"a@b.co", "x.y@z", "q@q@q", "no-at"},
+	"x-noreason": {"1a", "abc", "9", "x9"},
 	"x-wrapped": {"1.2.3.4", "999.1.1.1", "host.example", "10.0.0.256"},
 	"uuid":      {"123e4567-e89b-12d3-a456-426614174000", "00000000-0000-0000-0000-000000000000", "123e4567-e89b-62d3-a456-426614174000"},
 }
